@@ -155,6 +155,7 @@ const (
 	verifTickCliCloseDone              // Conn.Close has closed c.done (and is about to write GOAWAY)
 	verifTickCliTimeoutResolved        // Ctx.fireTimeout has resolved the Ctx and is about to cancel the stream
 	verifTickSrvReqTimer               // server stream loop: the request timer has fired
+	verifTickSrvIdle                   // server: the idle timer has fired (closeIdleConn has sent its GOAWAY and closed closer)
 	verifTickCount
 )
 
@@ -177,6 +178,7 @@ const (
 	VerifTickCliCloseDone       = verifTickCliCloseDone
 	VerifTickCliTimeoutResolved = verifTickCliTimeoutResolved
 	VerifTickSrvReqTimer        = verifTickSrvReqTimer
+	VerifTickSrvIdle            = verifTickSrvIdle
 	VerifTickCount              = verifTickCount
 )
 
